@@ -7,7 +7,7 @@ use crate::plan::*;
 use crate::rng::Rng;
 
 pub const WRITE_ERRNOS: &[i32] = &[ENOSPC, EPIPE, EIO, EFBIG, EAGAIN, EDQUOT];
-pub const READ_ERRNOS: &[i32] = &[EIO, EISDIR, ENOMEM, EBADF, EAGAIN];
+pub const READ_ERRNOS: &[i32] = &[EIO, EISDIR, ENOMEM, EBADF, EAGAIN, 110 /* ETIMEDOUT */, 116 /* ESTALE */];
 pub const OPEN_ERRNOS: &[i32] = &[ENOENT, EACCES, ELOOP, ENAMETOOLONG, ENOTDIR, EMFILE, ENFILE];
 pub const CWD_ERRNOS: &[i32] = &[ENOENT, EACCES];
 
